@@ -756,7 +756,9 @@ func (builder *builder[E]) GetWireConstraints(wires []frontend.Variable, addMiss
 	}
 	if addMissing {
 		nbWitnessWires := builder.cs.GetNbPublicVariables() + builder.cs.GetNbSecretVariables()
-		for k := range lookup {
+		// iterate in wire order: ranging over the map would make the order of
+		// the added constraints (hence the compiled system) non-deterministic
+		for _, k := range sortedKeys(lookup) {
 			if k >= nbWitnessWires {
 				return nil, fmt.Errorf("addMissing is true, but wire %d is not a witness", k)
 			}
@@ -880,7 +882,8 @@ func (builder *builder[E]) GetWiresConstraintExact(wires []frontend.Variable, ad
 	}
 
 	if addMissing {
-		for k := range wireIDsSet {
+		// iterate in wire order, see GetWireConstraints
+		for _, k := range sortedKeys(wireIDsSet) {
 			constraintIdx := builder.cs.AddSparseR1C(constraint.SparseR1C{
 				XA: uint32(k),
 				XC: uint32(k),
@@ -901,4 +904,14 @@ func (builder *builder[E]) GetWiresConstraintExact(wires []frontend.Variable, ad
 		res[i] = foundWireIDPosition[w.VID]
 	}
 	return res, nil
+}
+
+// sortedKeys returns the keys of the set in increasing order.
+func sortedKeys(set map[int]struct{}) []int {
+	keys := make([]int, 0, len(set))
+	for k := range set {
+		keys = append(keys, k)
+	}
+	sort.Ints(keys)
+	return keys
 }
